@@ -54,6 +54,16 @@ func swaggerDocs(ctx *fasthttp.RequestCtx) {
 }
 
 func routers(ctx *fasthttp.RequestCtx) {
+	// fasthttp falls back to the path "/" when it cannot parse the request
+	// target or the Host header (a control byte in the target, "Host: a:b");
+	// without this check such a request, whatever it asked for, would be
+	// answered with the home page.
+	var target fasthttp.URI
+	if err := target.Parse(ctx.Request.Header.Host(), ctx.Request.Header.RequestURI()); err != nil {
+		writeError(ctx, fasthttp.StatusBadRequest, "malformed request target or Host header", nil)
+		return
+	}
+
 	path := string(ctx.Path())
 
 	if path == "/docs" {
